@@ -36,6 +36,8 @@ type Conn struct {
 	i      int
 	cur    []byte
 	W      bytes.Buffer
+	// R records every byte handed to the library
+	R bytes.Buffer
 	// Marks[i] is the number of bytes written when chunk i was first delivered.
 	Marks []int
 	// FailWriteAfter, when >= 0, makes Write fail once that many bytes were written.
@@ -65,6 +67,7 @@ func (c *Conn) Read(p []byte) (int, error) {
 		}
 	}
 	n := copy(p, c.cur)
+	c.R.Write(c.cur[:n])
 	c.cur = c.cur[n:]
 	return n, nil
 }
